@@ -32,17 +32,16 @@ def model_type(em, name, nn):
     m = re.match(r'^map<(.*),void\*(,.*)?>$', nn)
     if m:
         key = em._split_targs(name)[0]
-        kt = em.resolve(T.parse(key))
-        if kt[0] != 'c' or kt[1].startswith('struct'):
-            raise ExtractError('map with non-scalar key')
-        cn = 'M_map_%s_voidp' % re.sub(r'[^A-Za-z0-9]', '_', kt[1])
-        if cn not in em.struct_defs:
-            body = em.opts.get('map_struct_body', '{ int _opaque; }')
-            em.struct_defs[cn] = 'struct %s %s;' % (cn, body)
-            em.rec_order.append(cn)
-            em.used_records[cn] = ('model', name)
-        em.lowerings['M-map(type)'] += 1
-        return 'struct ' + cn
+        return 'struct ' + map_struct(em, key, name)
+    m = re.match(r'^_Rb_tree_(?:const_)?iterator<pair<const(.*),void\*>>$', nn) or re.match(r'^map<(.*),void\*(?:,.*)?>::iterator$', nn)
+    if m:
+        key = em._split_targs(name)[0]
+        key = re.sub(r'^std::pair<const ', '', key) if 'pair<' in key else key
+        if 'pair<' in name:
+            inner_pair = em._split_targs(name)[0]
+            key = re.sub(r'^const\s+', '', em._split_targs(inner_pair)[0])
+        cn = map_struct(em, key, None)
+        return 'struct ' + cn.replace('M_map_', 'M_mapit_', 1)
     return None
 
 
@@ -123,6 +122,54 @@ def std_trait_type(em, name, nn):
     return em.resolve(r)
 
 
+MAP_KEY_BITS = {'unsigned char': 8, 'unsigned short': 16, 'unsigned int': 32, 'unsigned long': 64}
+
+
+def map_struct(em, key, name):
+    """M-map: std::map<K, void*> as a total array view (present[k], val[k]) over the whole key space.
+    8/16-bit keys: real arrays; wider keys: CBMC unbounded arrays (__CPROVER_constant_infinity_uint)."""
+    kt = em.resolve(T.parse(key))
+    if kt[0] != 'c' or kt[1] not in MAP_KEY_BITS:
+        raise ExtractError('map with unmodelled key type %r' % (kt,))
+    tag = re.sub(r'[^A-Za-z0-9]', '_', kt[1])
+    cn = 'M_map_%s_voidp' % tag
+    if cn not in em.struct_defs:
+        bits = MAP_KEY_BITS[kt[1]]
+        if bits > 16 and not em.opts.get('map_wide_keys'):
+            # wide key spaces: opaque (only reachable through functions that are contract leaves of the unit)
+            em.struct_defs[cn] = 'struct %s { int _opaque; }; /* M-map: std::map<%s, void*> opaque in this unit */' % (cn, kt[1])
+            em.rec_order.append(cn)
+            em.used_records[cn] = ('model', name or ('std::map<%s, void *>' % key))
+            em.lowerings['M-map(type, opaque)'] += 1
+            return cn
+        dim = str(1 << bits) if bits <= 16 else '__CPROVER_constant_infinity_uint'
+        em.struct_defs[cn] = ('struct %s { _Bool present[%s]; void *val[%s]; }; /* M-map view of std::map<%s, void*> */\n'
+                              'struct M_mapit_%s_voidp { struct %s *m; long idx; }; /* iterator: idx == -1 is end() */'
+                              % (cn, dim, dim, kt[1], tag, cn))
+        em.rec_order.append(cn)
+        em.used_records[cn] = ('model', name or ('std::map<%s, void *>' % key))
+    em.lowerings['M-map(type)'] += 1
+    return cn
+
+
+def _is_map(em, e):
+    try:
+        t = T.strip_quals(T.strip_ref(T.parse(qt(e))))
+    except T.TypeParseError:
+        return None
+    if t[0] == 'n' and re.match(r'^map<.*,void\*', norm_name(t[1])):
+        return map_struct(em, em._split_targs(t[1])[0], t[1])
+    return None
+
+
+def _is_mapit(em, e):
+    try:
+        t = T.strip_quals(T.strip_ref(T.parse(qt(e))))
+    except T.TypeParseError:
+        return False
+    return t[0] == 'n' and (norm_name(t[1]).startswith('_Rb_tree_iterator<pair<') or norm_name(t[1]).startswith('_Rb_tree_const_iterator<pair<') or re.match(r'^map<.*>::iterator$', norm_name(t[1])) is not None)
+
+
 def _is_std_array(em, e):
     try:
         t = T.strip_quals(T.strip_ref(T.parse(qt(e))))
@@ -137,6 +184,17 @@ def operator_call(em, n, rd, args):
         if st is not None:
             em.lowerings['M-callable(parameter %s -> contract stub)' % st] += 1
             return '%s(%s)' % (st, ', '.join(em.E(a) for a in args[1:]))
+    if rd.get('name') == 'operator[]' and len(args) == 2 and _is_map(em, args[0]):
+        m_, k_ = em.E(args[0]), em.E(args[1])
+        em.lowerings['M-map(operator[])'] += 1
+        return ('(*((%s).present[%s] ? &(%s).val[%s] : ((%s).val[%s] = (void *)0, (%s).present[%s] = 1, &(%s).val[%s])))'
+                % (m_, k_, m_, k_, m_, k_, m_, k_, m_, k_))
+    if rd.get('name') in ('operator==', 'operator!=') and len(args) == 2 and _is_mapit(em, args[0]) and _is_mapit(em, args[1]):
+        em.lowerings['M-map(iterator compare)'] += 1
+        return '((%s).idx %s (%s).idx)' % (em.E(args[0]), rd['name'][8:], em.E(args[1]))
+    if rd.get('name') == 'operator->' and len(args) == 1 and _is_mapit(em, args[0]):
+        em.lowerings['M-map(iterator ->)'] += 1
+        return 'MAPIT_ARROW(%s)' % em.E(args[0])
     if rd.get('name') == 'operator[]' and len(args) == 2 and _is_std_array(em, args[0]):
         em.lowerings['M-array(std::array::operator[] -> _M_elems[i])'] += 1
         return '((%s)._M_elems[%s])' % (em.E(args[0]), em.E(args[1]))
@@ -166,6 +224,21 @@ def member_call(em, n, callee, obj, args, rd):
             e = em.E(args[0])
             return '((%s == %s) ? (%s = %s, (_Bool)1) : (%s = %s, (_Bool)0))' % (o, e, o, em.E(args[1]), e, o)
         raise ExtractError('unmodelled atomic member ' + str(nm))
+    mcn = _is_map(em, obj)
+    if mcn and 'opaque' in (em.struct_defs.get(mcn) or ''):
+        raise ExtractError('operation %s on an opaque (wide-key) map model' % nm)
+    if mcn:
+        it = mcn.replace('M_map_', 'M_mapit_', 1)
+        em.lowerings['M-map(%s)' % nm] += 1
+        if nm == 'find' and len(args) == 1:
+            k_ = em.E(args[0])
+            return '((struct %s){ &(%s), (%s).present[%s] ? (long)(%s) : -1L })' % (it, o, o, k_, k_)
+        if nm == 'end' and not args:
+            return '((struct %s){ &(%s), -1L })' % (it, o)
+        if nm == 'erase' and len(args) == 1:
+            a_ = em.E(args[0])
+            return '((%s).m->present[(%s).idx] = 0)' % (a_, a_)
+        raise ExtractError('unmodelled std::map member ' + str(nm))
     hook = em.opts.get('member_call_extra')
     if hook:
         return hook(em, n, callee, obj, args, rd, nm, on, o)
@@ -238,7 +311,51 @@ def indirect_call(em, n, callee_e, args):
     return '%s(%s)' % (st, ', '.join(em.E(a) for a in args))
 
 
+def member_expr(em, n, base, d):
+    """it->second on a map iterator"""
+    if n.get('name') in ('second', 'first') and base.get('kind') == 'CXXOperatorCallExpr':
+        ii = inner(base)
+        if len(ii) == 2 and _is_mapit(em, ii[1]):
+            a_ = em.E(ii[1])
+            em.lowerings['M-map(iterator->%s)' % n['name']] += 1
+            if n['name'] == 'second':
+                return '((%s).m->val[(%s).idx])' % (a_, a_)
+            return '((%s).idx)' % a_
+    return None
+
+
+def construct(em, n, ii, rec):
+    """iterator -> const_iterator conversions of modelled containers are the identity"""
+    if rec is None and len(ii) == 1 and _is_mapit(em, n) and _is_mapit(em, ii[0]):
+        return em.E(ii[0])
+    hook = em.opts.get('construct_extra')
+    if hook:
+        return hook(em, n, ii, rec)
+    return None
+
+
+def field_default_init(em, lhs, ftype):
+    """default construction of modelled container members: the empty container"""
+    try:
+        t = T.strip_quals(T.parse(ftype))
+    except T.TypeParseError:
+        return None
+    if t[0] != 'n':
+        return None
+    nn = norm_name(t[1])
+    if re.match(r'^map<.*,void\*', nn):
+        em.lowerings['M-map(default construction = empty)'] += 1
+        return '__CPROVER_array_set(%s.present, (_Bool)0);' % lhs
+    if nn == 'vector<void*>' or nn.startswith('vector<void*,'):
+        em.lowerings['M-vec(default construction = empty)'] += 1
+        return '%s.len = 0;' % lhs
+    return None
+
+
 OPTS = {
+    'field_default_init': field_default_init,
+    'construct': construct,
+    'member_expr': member_expr,
     'indirect_call': indirect_call,
     'local_var': local_var,
     'range_for': range_for,
